@@ -18,14 +18,24 @@ Proof. vm_compute. reflexivity. Qed.
 Example minname_ex : map minified_name [0; 53; 54; 3509; 3510]%nat = [[97]; [36]; [97; 97]; [36; 36]; [97; 97; 97]].
 Proof. vm_compute. reflexivity. Qed.
 
-(* two entry points e0 (1), e1 (2) sharing m0 (3) and m1 (4); both modules declare "v" *)
-Definition nm (x : bytes) : list bytes := [[118]; [98;117;109;112]; [117;95] ++ x; [100;111;110;101]; x ++ [95;101]].
+(* two entry points e0 (1), e1 (2) sharing m0 (3) and m1 (4); both modules declare "v".
+   Each module has one live part declaring v, bump, u, done (inner indices 0..3) and a dead
+   namespace-export part that depends on the runtime (file 0); the entry points use import
+   refs (inner 10..12) that ImportsToBind maps to the modules' symbols. *)
+Definition nm (x : bytes) : list (Z * bytes) :=
+  [(0, [118]); (1, [98;117;109;112]); (2, [117;95] ++ x); (3, [100;111;110;101]); (4, x ++ [95;101])].
+Definition own_part : part_z := (true, [], [], [0; 1; 2; 3]).
+Definition ns_part : part_z := (false, [0], [(0, 0)], [4]).
 Definition ex_graph : graph := mk_graph
-  ([ ([], [], [], [[95;95;101;120;112;111;114;116]], [], []);
-     ([(3, false); (4, false)], [3; 4; 0], [3; 4], nm [101;48], [(3, 0); (3, 3); (4, 0)], [(1, 0); (1, 1); (1, 2); (1, 3)]);
-     ([(3, false); (4, false); (1, true)], [3; 4; 0], [3; 4], nm [101;49], [(3, 0); (4, 0)], [(2, 0); (2, 1); (2, 2); (2, 3)]);
-     ([], [0], [], nm [109;48], [], []);
-     ([], [0], [], nm [109;49], [], []) ],
+  ([ ([], [(false, [], [], [0])], [], [(0, [95;95;101;120;112;111;114;116])], []);
+     ([(3, false); (4, false)],
+      [ns_part; (true, [3; 4], [(1, 10); (1, 11); (1, 12)], []); own_part; (true, [], [], [])],
+      [((1, 10), (3, 0)); ((1, 11), (3, 3)); ((1, 12), (4, 0))], nm [101;48], [(1, 1); (1, 3); (1, 2); (1, 0)]);
+     ([(3, false); (4, false); (1, true)],
+      [ns_part; (true, [3; 4], [(2, 10); (2, 11)], []); own_part; (true, [], [], [])],
+      [((2, 10), (3, 0)); ((2, 11), (4, 0))], nm [101;49], [(2, 1); (2, 3); (2, 2); (2, 0)]);
+     ([], [ns_part; own_part], [], nm [109;48], []);
+     ([], [ns_part; own_part], [], nm [109;49], []) ],
    [1; 2], false).
 
 Example ex_hyp : deps_cover ex_graph.
